@@ -22,7 +22,7 @@ import vlib
 
 LEVEL = "model_checking"
 CODE_DEVS = ["ToFixedSetsStatic", "CounterIsStatic", "TypeIdByFirstUse", "AddressInOutput"]      # deviations of the pinned snapshot
-DEVS = CODE_DEVS + ["ObjectHashIsAddress", "ExtBufferIsStatic"]                                   # + regressions the probes must notice
+DEVS = CODE_DEVS + ["ObjectHashIsAddress", "ExtBufferIsStatic", "WarnLatchIsStatic"]                                   # + regressions the probes must notice
 EXT_ENV = {}        # LD_LIBRARY_PATH of the driver processes: where the test extension isoext lives
 INVS = ("InvNonInterferenceAfter", "InvNonInterferenceBeside", "InvDeterministic")
 
@@ -64,6 +64,10 @@ RENDER = {
                '[west,"g5"],[east,"g6"],[civilian,"g7"],[resistance,"g8"],[west,"g9"]]; diag_log ((keys _hm) apply {_hm get _x});'],
     # callExtension of the stateless test extension harness/C20_isoext.cc: answered / unanswered calls
     "extecho": ['diag_log ["isoext" callExtension "echo:answer %d"];', 'diag_log ("isoext" callExtension ["echo", ["answer %d", "w"]]);'],
+    # an operation that earns a diagnostic whenever it is used (no clipboard in this build)
+    "warn": ['copyToClipboard "x";', 'copyToClipboard "y"; diag_log "after";'],
+    # a warning delivered in the middle of an operator that builds a text: what was built before it must still be there
+    "fmtwarn": ['diag_log format ["%1 left (supplier %4), reorder at %2", 3, 5, "s"];', 'diag_log format ["a%1b%9c%2d", "L", "R"];'],
     "extquiet": ['diag_log ["isoext" callExtension "log:x"];', 'diag_log ("isoext" callExtension ["log", ["x"]]);', 'diag_log ["isoext" callExtension "part:ab"];'],
 }
 
@@ -133,7 +137,8 @@ def design_check(rep, tier):
                    ("TypeIdByFirstUse", "InvNonInterferenceAfter"), ("TypeIdByFirstUse", "InvNonInterferenceBeside"),
                    ("AddressInOutput", "InvDeterministic"), ("AddressInOutput", "InvNonInterferenceAfter"),
                    ("ObjectHashIsAddress", "InvDeterministic"), ("ObjectHashIsAddress", "InvNonInterferenceAfter"),
-                   ("ExtBufferIsStatic", "InvNonInterferenceAfter"), ("ExtBufferIsStatic", "InvNonInterferenceBeside")]:
+                   ("ExtBufferIsStatic", "InvNonInterferenceAfter"), ("ExtBufferIsStatic", "InvNonInterferenceBeside"),
+                   ("WarnLatchIsStatic", "InvNonInterferenceAfter"), ("WarnLatchIsStatic", "InvNonInterferenceBeside")]:
         jobs.append(("dev_%s_%s" % (d, inv[3:]), dict(dev=(d,), invs=(inv,), maxp=2, maxq=2), inv, "deviation %s (%s) violates %s" % (d, "the code" if d in CODE_DEVS else "a regression", inv[3:])))
     if tier != "quick":
         jobs.append(("ideal4", dict(maxp=4, maxq=4), None, "Isolation_MC ideal: P, Q <= 4 statements"))
